@@ -194,7 +194,10 @@ CHECKS = {
     "C10": (True,
             "Theorems: the regenerated retained_state_fields are I/O-only and every State entry the stream model touches is erased by reset_state; a "
             "concatenation is accepted iff each sequence is accepted alone (any number, any position), and the observed picture list of the concatenation is the "
-            "concatenation of the per-sequence lists. PARTIAL: picture CONTENT equality is compared by the differential run only.",
+            "concatenation of the per-sequence lists, picture numbers AND contents, for every decoding function of the sequence-local state and the unit payloads "
+            "(C10_content_is_concatenated); all State entry names regenerated from /repo are proved partitioned into the retained I/O entries and sequence-local "
+            "entries that reset_state erases (C10_state_entries_partition, C10_sequence_starts_from_initial_state). PARTIAL: that the concrete decoder is such a "
+            "function of the sequence's own header and payloads is compared by the differential run only (real sample arrays hashed, differing configurations, both orders).",
             C_TIE + "Field lists are tie T (Gen/StateFields.v, incl. a shape check of reset_state).",
             "Coq proofs on the stream model + regenerated state field lists + differential run on lists of up to 3-4 differing sequences with a non-conformant one at each position",
             "DESIGN.md 3 C10"),
